@@ -166,6 +166,33 @@ func (e *Enc) extCall(ins ssa.Instruction, name string, callee *ssa.Function, si
 				e.assert(implies(reach, app("distinct", rs[1].T, "nil")))
 			}
 		}
+		if e.token {
+			// on success the bytes are the decoding of the string; decoding inverts encoding (axiom bunhex(bhex a) = a)
+			e.needB = true
+			e.assert(implies(and(reach, app("=", rs[1].T, "nil")), app("=", e.tokBytes(h, rs[0].T), app("bunhex", args[0].T))))
+			e.assert(implies(reach, app("=", app("=", rs[1].T, "nil"), app("hexok", args[0].T))))
+		}
+		e.setResult(res, rs)
+		return true
+	case "github.com/libsv/go-bk/base58.Decode":
+		trust("base58.Decode: total; returns a fresh slice that is a function of the string (empty for invalid input); inverts base58.Encode")
+		rs := e.freshResults(sig, h)
+		e.havocKey(h, "$A")
+		e.assertFresh(rs[0], h)
+		if e.token {
+			e.needB = true
+			e.assert(implies(reach, app("=", e.tokBytes(h, rs[0].T), app("b58dec", args[0].T))))
+			e.assert(implies(reach, app("=", app("slen", rs[0].T), app("blen", app("b58dec", args[0].T)))))
+		}
+		e.setResult(res, rs)
+		return true
+	case "github.com/libsv/go-bk/base58.Encode":
+		trust("base58.Encode: total; the string is a function of the bytes")
+		rs := e.freshResults(sig, h)
+		if e.token {
+			e.needB = true
+			e.assert(implies(reach, app("=", rs[0].T, app("b58enc", e.tokBytes(h, args[0].T)))))
+		}
 		e.setResult(res, rs)
 		return true
 	case "math.Round":
